@@ -1,3 +1,8 @@
 pub mod model;
 pub mod ctx;
 pub mod universe;
+pub mod explore;
+pub mod monitor;
+pub mod judge;
+pub mod checks;
+pub mod runner;
